@@ -129,6 +129,11 @@ func runC13(c *Ctx) {
 		}
 	}
 
+	c13NumericEvaluation(c)
+	c.shared("R7", "C06/R1", "a numeric literal never absorbs an adjacent sign: the prefix-operator parselet obtains its operand from the precedence-climbing function on every path (no path builds the node from the raw token stream)", keyHas("rbp lang.unary", "rbp-bypass", "rbp lang.literal"), func(s *Ctx) {
+		m := extractPratt(s.P)
+		prattParselets(s, m)
+	})
 	c13NewlineFlag(c)
 	c13Operators(c)
 	c13Blanks(c)
@@ -224,6 +229,19 @@ func c13Operators(c *Ctx) {
 		if _, single := operatorOracle[f]; single {
 			c.check(excl[f][sec], "R5", "longest-match "+f+" vs "+s, p.Pos(nx.Pos()), "the one-byte form is only returned when the next byte is not "+sec, fmt.Sprintf("%q can be returned although the next byte is %q: %q would lex as two tokens", f, sec, s))
 		}
+	}
+	// EOF only at the real end of the text
+	for _, r := range returnsOf(nx) {
+		if tokenTagOf(p, effectiveResults(r)[0]) != "EOF" {
+			continue
+		}
+		known, val := false, false
+		for f := range F.At(r.Block()) {
+			if call, _ := callOf(f.cond); call != nil && staticCalleeIs(call, "(*lang.Lexer).atEnd") {
+				known, val = true, f.truth
+			}
+		}
+		c.check(known && val, "R5", "eof-at-end-only", p.InstrPos(r), "EOF is returned only when the cursor is at the end of the text", "an EOF token is returned on a path where atEnd() is not established (e.g. on a NUL byte): the rest of the program text is silently ignored instead of being reported as a syntax error")
 	}
 	// newline is a token; quotes go to the string scanner with the opening byte
 	c.check(got["\n"] == "Newline", "R4", "newline-token", p.Pos(nx.Pos()), "'\\n' -> Newline token", "a newline is not returned as a Newline token")
@@ -518,6 +536,22 @@ func c13NewlineFlag(c *Ctx) {
 		c.undecided("R6", "atStatementEnd", "", "anchor not found")
 		return
 	}
+	// the flag alone decides: the entry test is on the flag and its true edge returns true at once
+	{
+		entry := ase.Blocks[0]
+		okFlag := false
+		if ifi, ok := entry.Instrs[len(entry.Instrs)-1].(*ssa.If); ok {
+			if sf, ok := loadedField(ifi.Cond); ok && sf.Is("Parser", "didEndStatement") {
+				t := entry.Succs[0]
+				if r, ok := t.Instrs[len(t.Instrs)-1].(*ssa.Return); ok && len(t.Instrs) <= 2 {
+					if b, isC := constBool(effectiveResults(r)[0]); isC && b {
+						okFlag = true
+					}
+				}
+			}
+		}
+		c.check(okFlag, "R6", "newline-ends-statement", p.Pos(ase.Pos()), "after a newline the statement-end test answers true at once", "atStatementEnd does not answer `true` as soon as a newline was seen: whether a newline ends a statement now depends on what follows it (a bare print / return followed by a line starting with an operator swallows that line)")
+	}
 	allowed := map[string]bool{"(*lang.Parser).block": true, "(*lang.Parser).statement": true, "(*lang.Parser).printStatement": true}
 	callers := map[string]int{}
 	for _, cs := range p.CallSitesOf(ase) {
@@ -555,4 +589,36 @@ func c13NewlineFlag(c *Ctx) {
 func isParselet(fn *ssa.Function) bool {
 	sig := fn.Signature
 	return sig.Params().Len() >= 1 && isLangNamed(sig.Params().At(0).Type(), "Parser")
+}
+
+// numeric literal evaluation
+func c13NumericEvaluation(c *Ctx) {
+	p := c.P
+	c.note("R2 numeric-literal-evaluation: evalExpr turns a Num token into a number with strconv.ParseFloat(text, 64) and nothing else (no integer / radix-inferring parser in front of it); a failure is the runtime error `could not parse number`.")
+	ee := p.LangFunc("(*Evaluator).evalExpr")
+	if ee == nil {
+		c.undecided("R2", "evalExpr", "", "anchor not found")
+		return
+	}
+	var parsers []string
+	for _, call := range callsIn(ee) {
+		if f := call.Common().StaticCallee(); f != nil && strings.HasPrefix(f.String(), "strconv.") {
+			parsers = append(parsers, abbrevLiteral(p.Render(call.Value())))
+		}
+	}
+	want := "strconv.ParseFloat(TEXT, 64)"
+	c.check(len(parsers) == 1 && parsers[0] == want, "R2", "numeric-literal-parser", p.Pos(ee.Pos()), want, "numeric literals are converted by {"+strings.Join(parsers, " ; ")+"}; documented: digit sequences with an optional fraction, read by ParseFloat alone (a base-inferring integer parser reads 010 as 8)")
+	ms := p.maySetOf(ee, "expr.(*lang.ExprLiteral)#0.token.Tag", []string{"Str", "Ident", "Regex", "Num", "True", "False", "Null", "other"})
+	got := map[string]bool{}
+	for _, rc := range p.successResults(ee) {
+		tags := ms.At(rc.Ret.Block())
+		if len(tags) == 1 && tags[0] == "Num" {
+			got[abbrevLiteral(rc.Value)] = true
+		}
+	}
+	c.check(len(got) == 1 && got["&lang.Cell{Value: lang.NewValue(strconv.ParseFloat(TEXT, 64)#0)}"], "R2", "numeric-literal-value", p.Pos(ee.Pos()), "the literal's value is ParseFloat's result", "a numeric literal evaluates to {"+keysOf(got)+"}")
+}
+
+func abbrevLiteral(s string) string {
+	return strings.ReplaceAll(s, "e.lexer.src[&expr.(*lang.ExprLiteral)#0.token.Pos:(&expr.(*lang.ExprLiteral)#0.token.Pos + &expr.(*lang.ExprLiteral)#0.token.Len)]", "TEXT")
 }
